@@ -54,6 +54,13 @@ fn main() {
         eprintln!("tier must be quick or thorough");
         std::process::exit(2);
     }
+    // a subject that allocates without bound must not take the machine down: fail fast instead
+    if prop != "C14" {
+        unsafe {
+            let lim = libc::rlimit { rlim_cur: 40 << 30, rlim_max: 40 << 30 };
+            libc::setrlimit(libc::RLIMIT_AS, &lim);
+        }
+    }
     let seed: i64 = std::env::var("VERIF_SEED").ok().and_then(|s| s.parse().ok()).unwrap_or(0);
     let start = Instant::now();
     let rep = match a5verif::checks::run(prop, tier, &verif_dir) {
